@@ -35,6 +35,7 @@ type c16In struct {
 	Fixture []string `json:"fixture"` // statements building the scratch database (shared by all cases of a run when empty)
 	Pre     []string `json:"pre"`     // statements run before the statement under test
 	Probe   []string `json:"probe"`   // statements run after it (their outcome is part of the observed effect)
+	Fresh   bool     `json:"fresh"`   // transaction control: run on a database of its own, outside any transaction
 	NoExec  bool     `json:"noexec"`
 }
 
@@ -195,7 +196,11 @@ func c16Digest(s string) string {
 	return hex.EncodeToString(h[:8])
 }
 
-func c16Query(db *sql.DB, q string) (cols []string, rows [][]string, err error) {
+type c16Querier interface {
+	Query(query string, args ...any) (*sql.Rows, error)
+}
+
+func c16Query(db c16Querier, q string) (cols []string, rows [][]string, err error) {
 	r, err := db.Query(q)
 	if err != nil {
 		return nil, nil, err
@@ -243,11 +248,16 @@ func c16RowsText(rows [][]string, sorted bool) string {
 	return strings.Join(lines, "\n")
 }
 
+func c16NormType(t string) string {
+	return strings.ToUpper(strings.Join(strings.Fields(strings.NewReplacer("(", " ( ", ")", " ) ", ",", " , ").Replace(t)), " "))
+}
+
 // the state of the scratch database: every schema object (type, name, owning table), per table its columns
-// (name, declared type, notnull, pk, hidden), indexes (unique, origin, partial, key columns with direction and
-// collation), foreign keys, and all rows; per view its column names and rows.  The stored CREATE text is NOT part
-// of it (it legitimately differs by white space); what a constraint does is observed by the probe statements.
-func c16State(db *sql.DB) string {
+// (name, declared type folded to upper case with white space normalised, notnull, pk, hidden), indexes (unique,
+// origin, partial, key columns with direction and collation), foreign keys, and all rows; per view its column
+// names and rows.  The stored CREATE text is NOT part of it (it legitimately differs by white space); what a
+// constraint does is observed by the probe statements.
+func c16State(db c16Querier) string {
 	var b strings.Builder
 	for _, master := range []string{"sqlite_master", "sqlite_temp_master"} {
 		_, objs, err := c16Query(db, "SELECT type, name, tbl_name FROM "+master+" ORDER BY type, name")
@@ -259,59 +269,111 @@ func c16State(db *sql.DB) string {
 			typ, name := strings.TrimPrefix(o[0], "s:"), strings.TrimPrefix(o[1], "s:")
 			fmt.Fprintf(&b, "%s %s %s %s\n", master, typ, name, o[2])
 			qn := `"` + strings.ReplaceAll(name, `"`, `""`) + `"`
+			sn := "'" + strings.ReplaceAll(name, "'", "''") + "'"
 			switch typ {
 			case "table":
+				_, cols, err := c16Query(db, "SELECT cid, name, type, \"notnull\", pk, hidden FROM pragma_table_xinfo("+sn+")")
+				if err != nil {
+					b.WriteString("  xinfo error\n")
+				}
+				for _, c := range cols {
+					c[2] = c16NormType(c[2])
+				}
+				b.WriteString(c16RowsText(cols, false) + "\n")
 				for _, pragma := range []string{
-					"SELECT cid, name, type, \"notnull\", pk, hidden FROM pragma_table_xinfo(%s)",
 					"SELECT name, \"unique\", origin, partial FROM pragma_index_list(%s) ORDER BY name",
 					"SELECT id, seq, \"table\", \"from\", \"to\", on_update, on_delete FROM pragma_foreign_key_list(%s) ORDER BY id, seq",
 				} {
-					_, rows, err := c16Query(db, fmt.Sprintf(pragma, "'"+strings.ReplaceAll(name, "'", "''")+"'"))
+					_, rows, err := c16Query(db, fmt.Sprintf(pragma, sn))
 					if err != nil {
 						b.WriteString("  pragma error\n")
 					}
-					b.WriteString(c16RowsText(rows, false))
-					b.WriteString("\n")
+					b.WriteString(c16RowsText(rows, false) + "\n")
 				}
 				_, rows, err := c16Query(db, "SELECT * FROM "+qn)
 				if err != nil {
 					b.WriteString("  rows error\n")
 				}
-				b.WriteString(c16RowsText(rows, true))
-				b.WriteString("\n")
+				b.WriteString(c16RowsText(rows, true) + "\n")
 			case "index":
-				_, rows, _ := c16Query(db, fmt.Sprintf("SELECT seqno, cid, name, \"desc\", coll, key FROM pragma_index_xinfo('%s')", strings.ReplaceAll(name, "'", "''")))
-				b.WriteString(c16RowsText(rows, false))
-				b.WriteString("\n")
+				_, rows, _ := c16Query(db, "SELECT seqno, cid, name, \"desc\", coll, key FROM pragma_index_xinfo("+sn+")")
+				b.WriteString(c16RowsText(rows, false) + "\n")
 			case "view":
 				cols, rows, err := c16Query(db, "SELECT * FROM "+qn)
 				if err != nil {
 					b.WriteString("  view error\n")
 				}
 				b.WriteString(strings.Join(cols, ",") + "\n")
-				b.WriteString(c16RowsText(rows, true))
-				b.WriteString("\n")
+				b.WriteString(c16RowsText(rows, true) + "\n")
 			}
 		}
 	}
 	return b.String()
 }
 
-func c16Run(fixture, pre []string, text string, probe []string) c16Exec {
+// scratch databases are kept per fixture: a statement runs inside a transaction that is rolled back afterwards
+// (DDL is transactional in SQLite), so the next statement finds the pristine fixture again.  Transaction-control
+// statements (fresh=true) get a database of their own.
+type c16Scratch struct {
+	db   *sql.DB
+	base string // state of the pristine fixture
+}
+
+var c16Cache = map[string]*c16Scratch{}
+
+func c16Open(fixture []string) (*c16Scratch, string) {
 	c16DBSeq++
 	db, err := sql.Open("sqlite", fmt.Sprintf("file:c16mem%d?mode=memory&cache=private", c16DBSeq))
 	if err != nil {
-		return c16Exec{}
+		return nil, "open: " + err.Error()
 	}
-	defer db.Close()
 	db.SetMaxOpenConns(1)
-	for _, s := range append(append([]string{"PRAGMA foreign_keys=ON"}, fixture...), pre...) {
+	for _, s := range append([]string{"PRAGMA foreign_keys=ON"}, fixture...) {
 		if _, err := db.Exec(s); err != nil {
-			return c16Exec{Detail: "fixture: " + err.Error()}
+			db.Close()
+			return nil, "fixture: " + s + ": " + err.Error()
 		}
 	}
+	return &c16Scratch{db: db}, ""
+}
+
+func c16Get(fixture []string) (*c16Scratch, string) {
+	key := strings.Join(fixture, "\x00")
+	if s, ok := c16Cache[key]; ok {
+		return s, ""
+	}
+	if len(c16Cache) > 48 {
+		for k, s := range c16Cache {
+			s.db.Close()
+			delete(c16Cache, k)
+		}
+	}
+	s, msg := c16Open(fixture)
+	if s == nil {
+		return nil, msg
+	}
+	s.base = c16State(s.db)
+	c16Cache[key] = s
+	return s, ""
+}
+
+func c16Counters(db c16Querier) string {
+	_, r, err := c16Query(db, "SELECT total_changes(), (SELECT schema_version FROM pragma_schema_version()), (SELECT schema_version FROM pragma_schema_version('temp'))")
+	if err != nil || len(r) != 1 {
+		return "?"
+	}
+	return strings.Join(r[0], "|")
+}
+
+func c16Observe(db c16Querier, pre []string, text string, probe []string, base string) c16Exec {
 	res := c16Exec{Ran: true}
 	var det strings.Builder
+	for _, s := range pre {
+		if _, _, err := c16Query(db, s); err != nil {
+			return c16Exec{Detail: "pre: " + s + ": " + err.Error()}
+		}
+	}
+	before := c16Counters(db)
 	cols, rows, err := c16Query(db, text)
 	if err == nil {
 		res.Ok = true
@@ -331,7 +393,11 @@ func c16Run(fixture, pre []string, text string, probe []string) c16Exec {
 			fmt.Fprintf(&st, "probe %s => ok %s\n", p, strings.ReplaceAll(c16RowsText(prow, false), "\n", ";"))
 		}
 	}
-	st.WriteString(c16State(db))
+	if base != "" && len(probe) == 0 && len(pre) == 0 && before != "?" && c16Counters(db) == before {
+		st.WriteString(base) // nothing was written and no schema changed: the state is the fixture's
+	} else {
+		st.WriteString(c16State(db))
+	}
 	res.State = c16Digest(st.String())
 	det.WriteString(st.String())
 	d := det.String()
@@ -339,6 +405,34 @@ func c16Run(fixture, pre []string, text string, probe []string) c16Exec {
 		d = d[:6000]
 	}
 	res.Detail = d
+	return res
+}
+
+func c16Run(fixture, pre []string, text string, probe []string, fresh bool) c16Exec {
+	if fresh {
+		s, msg := c16Open(fixture)
+		if s == nil {
+			return c16Exec{Detail: msg}
+		}
+		defer s.db.Close()
+		return c16Observe(s.db, pre, text, probe, "")
+	}
+	s, msg := c16Get(fixture)
+	if s == nil {
+		return c16Exec{Detail: msg}
+	}
+	drop := func() {
+		s.db.Close()
+		delete(c16Cache, strings.Join(fixture, "\x00"))
+	}
+	if _, err := s.db.Exec("BEGIN"); err != nil {
+		drop()
+		return c16Exec{Detail: "begin: " + err.Error()}
+	}
+	res := c16Observe(s.db, pre, text, probe, s.base)
+	if _, err := s.db.Exec("ROLLBACK"); err != nil {
+		drop() // the statement ended the transaction itself: this database is no longer pristine
+	}
 	return res
 }
 
@@ -403,8 +497,8 @@ func TestVerifC16RoundTrip(t *testing.T) {
 				res.Text3 = p2.Format()
 			}
 			if !rec.NoExec {
-				res.X1 = c16Run(fx, rec.Pre, rec.SQL, rec.Probe)
-				res.X2 = c16Run(fx, rec.Pre, res.Text2, rec.Probe)
+				res.X1 = c16Run(fx, rec.Pre, rec.SQL, rec.Probe, rec.Fresh)
+				res.X2 = c16Run(fx, rec.Pre, res.Text2, rec.Probe, rec.Fresh)
 			}
 		}
 		if err := enc.Encode(res); err != nil {
